@@ -97,7 +97,7 @@ type Rec struct {
 	// any real receiver, RFC 7540 section 6.10).
 	Foreign []string
 	ReadErr error // terminal read error (io.EOF when the peer closed cleanly)
-	Done      bool  // reader finished
+	Done    bool  // reader finished
 
 	Violations []Violation
 }
